@@ -78,6 +78,11 @@ class Oracle:
     # ops whose correspondence cases can be fed to this oracle
     from_ops: tuple = ()
     adapt: Callable[[str, dict], dict | None] = lambda op, a: a
+    # optional: turn a whole disagreement record {op,args,impl,model} into an oracle input.
+    # Used first in the failing-input search: an input on which the model (= the unchanged
+    # code's behaviour) satisfies the property while the implementation now answers
+    # differently is the natural candidate, also outside the region the oracle sweeps.
+    adapt_disagreement: Callable[[dict], dict | None] | None = None
 
 
 def ok(v):
@@ -556,6 +561,16 @@ def failing_input_search(plugin, disagreements, all_cases, rng, tier, log):
     for orc in plugin.ORACLES:
         seen = 0
         streams = []
+        if orc.adapt_disagreement is not None:
+            pre = []
+            for d in disagreements:
+                try:
+                    a2 = orc.adapt_disagreement(d)
+                except Exception:  # noqa: BLE001
+                    a2 = None
+                if a2 is not None:
+                    pre.append((None, a2))
+            streams.append(pre)
         streams.append([(d["op"], d["args"]) for d in disagreements])
         streams.append([(op, a) for op in orc.from_ops for a in all_cases.get(op, [])])
         sub = random.Random(rng.random())
